@@ -514,24 +514,167 @@ class CFG(object):
 
     def reachable_avoiding(self, targets, cut_nodes=(), cut_edges=()):
         """Is any node of `targets` reachable from entry without passing through a
-        node of cut_nodes or an edge (node id, label) of cut_edges?"""
+        node of cut_nodes or an edge (node id, label) of cut_edges?  Paths that contradict
+        the constant last assigned to a flag local (see flag_vars) are not followed."""
+        return self.reach([self.entry], targets, cut_nodes, cut_edges)
+
+    # -- flag locals: a local of integral type that is only ever given constants (`bool found = false; ... found = true;`)
+    #    and whose address is never taken.  A search that carries the constant last assigned to each of them does not
+    #    follow a branch on such a local against its value (single-exit code: `if (cached) return result;`).
+    def flag_vars(self):
+        if hasattr(self, '_flagvars'):
+            return self._flagvars
+        from .frontend import walk, dtype, qtype
+        from .expr import Folder, peel, int_type
+        fn = self.fn
+        u = fn.get('_u')
+        cand = {}
+        bad = set()
+        fo = Folder(u) if u is not None else None
+        if fo is not None:
+            for x in walk(fn):
+                k = x.get('kind')
+                if k == 'VarDecl' and x.get('storageClass') != 'static' and int_type((dtype(x) or qtype(x) or '').replace('const ', '')) \
+                        and '&' not in (qtype(x) or '') and '*' not in (qtype(x) or ''):
+                    ini = [c for c in kids(x) if not c.get('kind', '').endswith('Attr')]
+                    if 'init' in x and ini:
+                        v = fo.fold(ini[-1])
+                        if v is None:
+                            bad.add(x['id'])
+                    cand[x['id']] = x
+            for x in walk(fn):
+                k = x.get('kind')
+                if k in ('BinaryOperator', 'CompoundAssignOperator') and (x.get('opcode') == '=' or k == 'CompoundAssignOperator'):
+                    l = peel(kids(x)[0])
+                    i = (l.get('referencedDecl') or {}).get('id') if l is not None and l.get('kind') == 'DeclRefExpr' else None
+                    if i in cand and (k == 'CompoundAssignOperator' or fo.fold(kids(x)[1]) is None):
+                        bad.add(i)
+                elif k == 'UnaryOperator' and x.get('opcode') in ('++', '--', '&'):
+                    l = peel(kids(x)[0])
+                    i = (l.get('referencedDecl') or {}).get('id') if l is not None and l.get('kind') == 'DeclRefExpr' else None
+                    if i in cand:
+                        bad.add(i)
+                elif k == 'DeclRefExpr' and (x.get('referencedDecl') or {}).get('id') in cand:
+                    # bound to a reference / captured: any use that is not a plain read or the target of an assignment
+                    p = x.get('_p')
+                    if p is not None and p.get('kind') in ('LambdaExpr',):
+                        bad.add(x['referencedDecl']['id'])
+                    if p is not None and p.get('kind') in ('CallExpr', 'CXXMemberCallExpr', 'CXXConstructExpr', 'CXXOperatorCallExpr', 'VarDecl',
+                                                           'ReturnStmt', 'InitListExpr'):
+                        bad.add(x['referencedDecl']['id'])      # (an lvalue handed on: may be bound to a reference)
+                elif k == 'LambdaExpr':
+                    for y in walk(x):
+                        if y.get('kind') == 'DeclRefExpr' and (y.get('referencedDecl') or {}).get('id') in cand:
+                            bad.add(y['referencedDecl']['id'])
+        self._flagvars = set(cand) - bad
+        self._flagfold = fo
+        return self._flagvars
+
+    def _flag_transfer(self, n, st):
+        """State after node n (st: tuple of (var id, value) pairs, sorted)."""
+        fv = self.flag_vars()
+        if not fv or n.ast is None or n.kind not in ('stmt', 'cond'):
+            return st
+        from .frontend import walk
+        from .expr import peel
+        d = dict(st)
+        ch = False
+        for x in walk(n.ast):
+            k = x.get('kind')
+            if k == 'VarDecl' and x.get('id') in fv:
+                ini = [c for c in kids(x) if not c.get('kind', '').endswith('Attr')]
+                if 'init' in x and ini:
+                    d[x['id']] = self._flagfold.fold(ini[-1])
+                    ch = True
+                elif x['id'] in d:
+                    del d[x['id']]
+                    ch = True
+            elif k == 'BinaryOperator' and x.get('opcode') == '=':
+                l = peel(kids(x)[0])
+                i = (l.get('referencedDecl') or {}).get('id') if l is not None and l.get('kind') == 'DeclRefExpr' else None
+                if i in fv:
+                    d[i] = self._flagfold.fold(kids(x)[1])
+                    ch = True
+        return tuple(sorted(d.items())) if ch else st
+
+    def _flag_truth(self, e, st):
+        """Truth of condition e under the flag values st: True / False / None (unknown)."""
+        from .expr import peel
+        x = peel(e)
+        if x is None:
+            return None
+        d = dict(st)
+        k = x.get('kind')
+        if k == 'DeclRefExpr':
+            i = (x.get('referencedDecl') or {}).get('id')
+            return (d[i] != 0) if i in d and d[i] is not None else None
+        if k == 'UnaryOperator' and x.get('opcode') == '!':
+            t = self._flag_truth(kids(x)[0], st)
+            return None if t is None else (not t)
+        if k == 'BinaryOperator' and x.get('opcode') in ('==', '!='):
+            a, b = peel(kids(x)[0]), peel(kids(x)[1])
+            for (v_, c_) in ((a, kids(x)[1]), (b, kids(x)[0])):
+                if v_ is not None and v_.get('kind') == 'DeclRefExpr':
+                    i = (v_.get('referencedDecl') or {}).get('id')
+                    cv = self._flagfold.fold(c_) if getattr(self, '_flagfold', None) is not None else None
+                    if i in d and d[i] is not None and cv is not None:
+                        return (d[i] == cv) == (x.get('opcode') == '==')
+        return None
+
+    def explore(self, extra=None, cap=200000):
+        """{node id: set of (flag state, extra state)} over all paths from entry consistent with the flag locals.
+        extra(node, x) -> x' threads caller-defined information (hashable) along the paths.  None when the cap is hit."""
+        fv = self.flag_vars()
+        at = {}
+        stack = [(self.entry, (), None)]
+        steps = 0
+        while stack:
+            n, st, ex = stack.pop()
+            key = (st, ex)
+            if key in at.setdefault(n.id, set()):
+                continue
+            at[n.id].add(key)
+            steps += 1
+            if steps > cap:
+                return None
+            truth = None
+            if fv and n.kind == 'cond' and n.ast is not None and st:
+                truth = self._flag_truth(n.ast, st)
+            st2 = self._flag_transfer(n, st) if fv else st
+            ex2 = extra(n, ex) if extra is not None else ex
+            for (m, l) in n.succs:
+                if truth is not None and l in ('T', 'F') and (l == 'T') != truth:
+                    continue
+                stack.append((m, st2, ex2))
+        return at
+
+    def reach(self, starts, targets, cut_nodes=(), cut_edges=(), state=()):
+        """Is a node of `targets` reachable from `starts` (nodes, entered with the flag state `state`) without passing a
+        node of cut_nodes or an edge of cut_edges, along paths consistent with the flag locals?"""
         cut_nodes = set(n.id for n in cut_nodes)
         cut_edges = set(cut_edges)
         tg = set(n.id for n in targets)
+        fv = self.flag_vars()
         seen = set()
-        stack = [self.entry]
+        stack = [(n, tuple(state)) for n in starts]
         while stack:
-            n = stack.pop()
-            if n.id in seen or n.id in cut_nodes:
+            n, st = stack.pop()
+            if (n.id, st) in seen or n.id in cut_nodes:
                 continue
-            seen.add(n.id)
+            seen.add((n.id, st))
             if n.id in tg:
                 return True
+            truth = None
+            if fv and n.kind == 'cond' and n.ast is not None and st:
+                truth = self._flag_truth(n.ast, st)
+            st2 = self._flag_transfer(n, st) if fv else st
             for (m, l) in n.succs:
                 lk = l if not isinstance(l, tuple) else 'case'
                 if (n.id, lk) in cut_edges:
                     continue
-                stack.append(m)
+                if truth is not None and l in ('T', 'F') and (l == 'T') != truth:
+                    continue
+                stack.append((m, st2))
         return False
 
     def nodes_for(self, ast):
